@@ -458,6 +458,38 @@ func init() {
 		}
 		return tuple{i, iface{}}
 	})
+	reg("strconv.AppendUint", func(fr *frame, a []value) value {
+		if asInt64(a[2]) != 10 {
+			fr.ex.unsupported("strconv.AppendUint with base != 10")
+		}
+		var txt value
+		if s, ok := a[1].(symv); ok {
+			txt = fr.ex.fmtInt(s.T, false)
+		} else {
+			txt = strconv.FormatUint(uint64(asInt64(a[1])), 10)
+		}
+		dst := a[0].([]value)
+		if _, isStr := txt.(string); isStr && !isTextBlob(dst) {
+			return append(dst, stringToBytes(txt.(string))...)
+		}
+		return textBlob(fr.ex.strConcat(bytesAsText(fr.ex, dst), txt))
+	})
+	reg("strconv.AppendInt", func(fr *frame, a []value) value {
+		if asInt64(a[2]) != 10 {
+			fr.ex.unsupported("strconv.AppendInt with base != 10")
+		}
+		var txt value
+		if s, ok := a[1].(symv); ok {
+			txt = fr.ex.fmtInt(s.T, true)
+		} else {
+			txt = strconv.FormatInt(asInt64(a[1]), 10)
+		}
+		dst := a[0].([]value)
+		if _, isStr := txt.(string); isStr && !isTextBlob(dst) {
+			return append(dst, stringToBytes(txt.(string))...)
+		}
+		return textBlob(fr.ex.strConcat(bytesAsText(fr.ex, dst), txt))
+	})
 	reg("strconv.FormatInt", func(fr *frame, a []value) value { return strconv.FormatInt(asInt64(a[0]), int(asInt64(a[1]))) })
 	reg("strconv.FormatUint", func(fr *frame, a []value) value {
 		return strconv.FormatUint(uint64(asInt64(a[0])), int(asInt64(a[1])))
@@ -614,6 +646,9 @@ func stringToBytes(s string) []value {
 }
 
 func bytesToString(fr *frame, b []value) value {
+	if isTextBlob(b) {
+		return fromTerm(types.Typ[types.String], b[0].(*jsonBlob).rawStr)
+	}
 	if len(b) == 1 {
 		if jb, ok := b[0].(*jsonBlob); ok {
 			if txt, okc := jb.concreteText(); okc {
